@@ -102,6 +102,9 @@ def _check_bop(st, prop, op, a, b, resp, where):
         st.violate(Violation(prop, 'num', 'big:%s:panic' % op, case, str(e), resp))
         return None
     f = resp.split(' ')
+    if len(f) < 7:
+        st.violate(Violation(prop, 'num', 'big:%s:malformed' % op, case, str(e), resp))
+        return None
     eq, eqrev, eqneg, pos, zero, toint, same = f[:7]
     ok = True
     if op == 'gcd':
@@ -199,9 +202,27 @@ def c05_singles(vectors_k, limbs, text_bits):
         reqs.append(('num', 'bchk', 0, R.lit(n)))
         meta.append(('new_eq', str(n), n, '1 1 %d %d %d' % (1 if n >= 0 else 0, 1 if n == 0 else 0,
                                                              abs(n) & 0xFFFFFFFF)))
+    # the named constants, observed and used as operands (0 + 0, 0 * -1, 1 - 1 ...)
+    for name, val in (('zero', 0), ('one', 1)):
+        reqs.append(('num', 'bconst', 0, name))
+        meta.append(('const-' + name, name, val, exp_big_obs(val)))
+        reqs.append(('num', 'bchk', 0, R.lit(val)))
+        meta.append(('const-eq-' + name, name, val, '1 1 %d %d %d' % (1, 1 if val == 0 else 0, val)))
+        for other in (0, -1, 5):
+            reqs.append(('num', 'bset', 1, R.lit(other)))
+            meta.append((None, None, None, None))
+            for op in ('add', 'sub', 'mul'):
+                e = big_expected(op, val, other)
+                reqs.append(('num', 'bop', op, 0, 1, 2, R.lit(e), 'd'))
+                meta.append(('const-%s-%s' % (name, op), '%s %s %d' % (name, op, other), e, None))
     resps = sh.batch(reqs)
     for (kind, lit, m, exp), resp in zip(meta, resps):
+        if kind is None:
+            continue
         st.inc('transitions')
+        if exp is None:
+            _check_bop(st, 'C05', kind.split('-')[-1], {'zero': 0, 'one': 1}[kind.split('-')[1]], int(lit.split(' ')[-1]), resp, 'const')
+            continue
         if resp != exp:
             st.violate(Violation('C05', 'num', 'big:' + kind, {'kind': 'big_single', 'op': kind, 'arg': lit},
                                  exp, resp))
@@ -509,6 +530,17 @@ def c06_unary(pairs):
             meta.append(('floor', a, exp_big_obs(R.floor_nonneg(a))))
         reqs.append(('num', 'nobs', i))
         meta.append(('obs', a, exp_num_obs(a)))
+    for name, val in (('zero', Fraction(0)), ('one', Fraction(1))):
+        reqs.append(('num', 'nconst', T + 40, name))
+        meta.append(('const:' + name, val, exp_num_obs(val)))
+        reqs.append(('num', 'nchk', T + 40) + spellings(val))
+        meta.append(('const:%s:eq' % name, val, _nchk_expect(val)))
+        for op in ('add', 'mul'):
+            reqs.append(('num', 'nop', op, T + 40, T + 40, T + 41))
+            meta.append((None, None, None))
+            e = R.n_add(val, val) if op == 'add' else R.n_mul(val, val)
+            reqs.append(('num', 'nobs', T + 41))
+            meta.append(('const:%s:%s' % (name, op), val, exp_num_obs(e)))
     # NaN reached in different ways (negated, flipped zero, sum/product with NaN) is still just NaN as an operand
     nan = next(k for k, v in enumerate(vals) if v is None)
     zero = next(k for k, v in enumerate(vals) if v == 0)
@@ -528,7 +560,7 @@ def c06_unary(pairs):
     resps = sh.batch(reqs)
     for (op, a, exp), resp in zip(meta, resps):
         st.inc('transitions')
-        if op == 'nan-variant':
+        if op == 'nan-variant' or op is None:
             continue
         if resp != exp and op.startswith('nan-operand'):
             st.violate(Violation('C06', 'num', 'num:nan-operand', {'kind': 'nan_operand', 'what': str(a)},
